@@ -1,5 +1,5 @@
 (* Props/C14.v — cw4: only the admin changes a group, and hooks hear every change truthfully. *)
-Require Import CwPlus.Params CwPlus.Base CwPlus.AMap CwPlus.Cw4Model CwPlus.Cw4Snap CwPlus.Cw4Lemmas.
+Require Import CwPlus.Params CwPlus.Base CwPlus.AMap CwPlus.Cw4Model CwPlus.Cw4Snap CwPlus.Cw4Lemmas CwPlus.Cw4Lemmas2.
 Open Scope N_scope.
 
 (* the admin, the hook list and (cw4-group) the member table / total change only in a call made by
@@ -47,6 +47,35 @@ Proof.
   exact (proj1 (run_spec cs st (height blk) HW Hm)).
 Qed.
 
+(* the hook registry over whole histories.  Only registered addresses are ever told anything, by any accepted
+   call in any state; the addresses told by one call are either nobody or exactly the registered list (each
+   once, since the registry of a reachable state never lists an address twice); and a removed hook is no
+   longer notified: after an accepted RemoveHook{x}, no call of any history that does not register x again
+   sends x a message *)
+Theorem c14_only_registered_told : forall st blk sender o st' ms h ds,
+  step st blk sender o = Ok (st', ms) -> In (HookMsg h ds) ms -> In h (hooks st).
+Proof. intros st blk sender o st' ms h ds H. exact (proj1 (step_hooks _ _ _ _ _ _ H) h ds). Qed.
+
+Theorem c14_told_nobody_or_everybody_once : forall st blk sender o st' ms,
+  step st blk sender o = Ok (st', ms) -> told ms = [] \/ told ms = hooks st.
+Proof. exact told_once. Qed.
+
+Theorem c14_registry_never_duplicates : forall m blk st cs, instantiate m blk = Ok st -> NoDup (hooks (run st cs)).
+Proof. exact hooks_nodup_history. Qed.
+
+Theorem c14_removed_hook_silent : forall st blk sender x st' ms cs,
+  NoDup (hooks st) -> step st blk sender (RemoveHook (Some x)) = Ok (st', ms) ->
+  Forall (fun c => ~ adds_hook x c) cs -> silent_for x st' cs.
+Proof. exact removed_hook_silent. Qed.
+
+Example c14_removed_hook_example :
+  exists st, instantiate (mkInit false (Some (Some 0)) [(Some 1, 5)] cfg_default) (mkBlock 10 0) = Ok st /\
+    let st1 := run st [(mkBlock 11 0, 0, AddHook (Some 8), true); (mkBlock 11 0, 0, AddHook (Some 9), true);
+                       (mkBlock 11 0, 0, RemoveHook (Some 8), true)] in
+    hooks st1 = [9] /\
+    told (tx_msgs st1 (mkBlock 12 0, 0, UpdateMembers [(Some 2, 3)] [], true)) = [9].
+Proof. eexists. split; [reflexivity|]. vm_compute. split; reflexivity. Qed.
+
 Example c14_nonvacuous :
   exists st, instantiate (mkInit false (Some (Some 0)) [(Some 1, 5); (Some 2, 7)] cfg_default) (mkBlock 10 0) = Ok st /\
     let st1 := run st [(mkBlock 11 0, 0, AddHook (Some 8), true); (mkBlock 11 0, 0, AddHook (Some 9), true)] in
@@ -62,3 +91,7 @@ Print Assumptions c14_frozen.
 Print Assumptions c14_hooks.
 Print Assumptions c14_untouched.
 Print Assumptions c14_reachable.
+Print Assumptions c14_only_registered_told.
+Print Assumptions c14_told_nobody_or_everybody_once.
+Print Assumptions c14_registry_never_duplicates.
+Print Assumptions c14_removed_hook_silent.
